@@ -394,6 +394,18 @@ class Scenario:
     # identifiability (independent of libvna)
     # ------------------------------------------------------------------
     def classify(self, f=0, stds=None):
+        # identifiability and conditioning are those of the network at unit
+        # receiver gain: a common gain only rescales error terms
+        gains = [en.rx_gain for en in self.enet]
+        for en in self.enet:
+            en.rx_gain = 1.0
+        try:
+            return self._classify(f, stds)
+        finally:
+            for en, g in zip(self.enet, gains):
+                en.rx_gain = g
+
+    def _classify(self, f=0, stds=None):
         stds = self.stds if stds is None else stds
         obs = []
         leak = []
@@ -486,12 +498,14 @@ class Scenario:
                     if column_type:
                         a = 1.0 + 0.4 * (rng.standard_normal(nc) +
                                          1j * rng.standard_normal(nc))
-                        std.A.append(a.reshape(1, nc))
+                        std.A.append(a.reshape(1, nc) *
+                                     getattr(self, "a_scale", 1.0))
                     else:
                         a = np.eye(nc) + 0.25 * (
                             rng.standard_normal((nc, nc)) +
                             1j * rng.standard_normal((nc, nc)))
-                        std.A.append(a * (1.0 + 0.3 * rng.standard_normal()))
+                        std.A.append(a * (1.0 + 0.3 * rng.standard_normal()) *
+                                     getattr(self, "a_scale", 1.0))
             bcells = []
             for i in rows:
                 for kk in range(nc):
@@ -560,10 +574,12 @@ class Scenario:
                 if column_type:
                     a = (1.0 + 0.4 * (rng.standard_normal(p) +
                                       1j * rng.standard_normal(p))).reshape(1, p)
+                    a = a * getattr(self, "a_scale", 1.0)
                     B = Ms[f] * a[0][None, :]
                 else:
                     a = np.eye(p) + 0.25 * (rng.standard_normal((p, p)) +
                                             1j * rng.standard_normal((p, p)))
+                    a = a * getattr(self, "a_scale", 1.0)
                     B = Ms[f] @ a
                 As.append(a)
                 Bs.append(B)
